@@ -73,7 +73,7 @@ type vNode struct {
 	segs   []string // physical absolute location
 	kind   int
 	target string
-	perm   uint32 // permission bits (0777 mask)
+	perm   uint32 // permission bits (0777) plus setuid / setgid / sticky as 04000 / 02000 / 01000
 	mtime  int64  // seconds
 	data   string
 }
@@ -290,6 +290,18 @@ func vInfoOf(segs []string, idx int) vInfo {
 	}
 	n := vNodes[idx]
 	m := fs.FileMode(n.perm & 0777)
+	// bits 04000 / 02000 / 01000 of perm: setuid, setgid, sticky (Go reports them as mode flags)
+	if n.kind != vLink {
+		if n.perm&04000 != 0 {
+			m |= fs.ModeSetuid
+		}
+		if n.perm&02000 != 0 {
+			m |= fs.ModeSetgid
+		}
+		if n.perm&01000 != 0 {
+			m |= fs.ModeSticky
+		}
+	}
 	var size int64
 	switch n.kind {
 	case vDir:
@@ -608,6 +620,15 @@ func model_os_Chmod(name string, mode fs.FileMode) error {
 	vLog = append(vLog, vMut{"chmod", vCopy(p)})
 	if idx >= 0 {
 		vNodes[idx].perm = uint32(mode) & 0777
+		if mode&fs.ModeSetuid != 0 {
+			vNodes[idx].perm |= 04000
+		}
+		if mode&fs.ModeSetgid != 0 {
+			vNodes[idx].perm |= 02000
+		}
+		if mode&fs.ModeSticky != 0 {
+			vNodes[idx].perm |= 01000
+		}
 	}
 	return nil
 }
